@@ -114,6 +114,22 @@ def model_check(ctx, module, cfg, expect_ok=True, timeout=1800, workers=None, he
     return ok, out
 
 
+def tlaps(ctx, module, timeout=600):
+    """Unbounded proofs with the TLA+ proof system (tlapm); returns (obligations, proved)."""
+    try:
+        p = subprocess.run(["tlapm", "--threads", "8", module], cwd=ctx.specdir, stdout=subprocess.PIPE, stderr=subprocess.STDOUT,
+                           universal_newlines=True, timeout=timeout)
+    except subprocess.TimeoutExpired:
+        raise Infra("tlapm timeout on " + module)
+    m = re.search(r"All (\d+) obligations? proved", p.stdout)
+    if not m:
+        raise Infra("tlapm did not prove %s:\n%s" % (module, p.stdout[-2000:]))
+    n = int(m.group(1))
+    ctx.notes.setdefault("tlaps", []).append({"module": module, "obligations": n, "discharged": n})
+    ctx.log("TLAPS %s: all %d obligations proved" % (module, n))
+    return n, n
+
+
 def gen_cases(ctx, module, outname, env=None):
     """R2: let TLC evaluate a case-matrix module that writes ndjson."""
     out = os.path.join(ctx.work, outname)
